@@ -48,15 +48,6 @@ Init == l = 1 /\ nUnspec = 0
 
 \* Two correct shortest-digit algorithms may print the same double with a different 16th / 17th digit; a datum read
 \* back from such a text equals the original up to two units in the last place of the longer digit string.
-Zeros(k) == [i \in 1..k |-> 0]
-FloatAgrees(x, y) ==
-  IF x = y THEN TRUE
-  ELSE IF x.t # "flt" \/ y.t # "flt" \/ x.neg # y.neg \/ Len(x.d) < 16 \/ Len(y.d) < 16 THEN FALSE
-  ELSE LET ex == IF x.e < y.e THEN x.e ELSE y.e
-           X == Norm(x.d \o Zeros(x.e - ex))
-           Y == Norm(y.d \o Zeros(y.e - ex))
-       IN x.e - ex <= 2 /\ y.e - ex <= 2 /\ Leq(X, AddSmall(Y, 2)) /\ Leq(Y, AddSmall(X, 2))
-
 RECURSIVE SameDatum(_, _)
 SameDatum(a, b) ==
   IF a = b THEN TRUE
